@@ -55,7 +55,7 @@ CLAIMED = {
         text="Theorems (Coq): every sequence the solver ever assigns - top-level and every candidate of local exhaustive/random searches - has the original length and lies in the mutation space, for resolve_constraints, optimize and the direct searches, every specification kind, configuration and random stream; a failed exhaustive search restores its starting sequence. Hence an abort at ANY evaluation call leaves a usable problem. The model's evaluation/assignment trace is tied to the code trace-exactly; fault enumeration on the implementation raises at the k-th evaluate call and checks length, hard restrictions, sequence_before, re-evaluation and re-solve.",
         note=SOLVER_NOTE + " Exceptions are injected by wrapping evaluate from outside; a NoSolutionError thrown by a user specification itself would be caught by the solver and is out of scope.", technique="Coq proof (state invariant over the whole run) + trace-exact correspondence + fault enumeration on the implementation", design="6/C12"),
     "C08": dict(
-        text="Theorem (Coq): for every modelled built-in class (AvoidHairpins and UniquifyAllKmers included) except the pure objective HarmonizeRCA, every well-formed instance, every window W inside the sequence and every pair of sequences differing only inside W: if S passes before and S localized to W passes after, S passes after; if localization yields nothing the score is unchanged. The model's localized()/evaluate() are tied to the code by vm_compute correspondence on all 16 classes (including the one not proved), and a direct oracle runs the property on the implementation. Partial: HarmonizeRCA used as a constraint is decided by the differential run + oracle only. (Refuting the first statement of the law for UniquifyAllKmers exposed defect F19, fixed in the repository.)",
+        text="Theorem (Coq): for every one of the 16 modelled built-in classes (AvoidHairpins, UniquifyAllKmers in its global form and HarmonizeRCA included), every well-formed instance, every window W inside the sequence and every pair of sequences differing only inside W: if S passes before and S localized to W passes after, S passes after; if localization yields nothing the score is unchanged. The model's localized()/evaluate() are tied to the code by vm_compute correspondence on all 16 classes , and a direct oracle runs the property on the implementation. (Refuting the first statement of the law for UniquifyAllKmers exposed defect F19, fixed in the repository.)",
         note="Trusted: Coq kernel; hand model of evaluate/localized (Model/Specs.v) tied by correspondence; thresholds read as the decimals the user wrote (float caveat in DESIGN section 9); with_righthand=False variants are modelled but not claimed.",
         technique="Coq proof (window-locality lemmas, codon-window arithmetic) + vm_compute correspondence + direct oracle",
         design="6/C08"),
